@@ -646,16 +646,63 @@ fn wkt_of(ls: &[P]) -> String {
     }
     format!("LINESTRING ({})", ls.iter().map(|p| format!("{} {}", dec(p.0), dec(p.1))).collect::<Vec<_>>().join(", "))
 }
+/// geo's centroid of the f32 linestring, if it is on the 1/16 grid
+fn try_centroid16(ls: &[P]) -> Option<P> {
+    let g: LineString<f32> = LineString::from(ls.iter().map(|p| ((p.0 as f64 / 16.0) as f32, (p.1 as f64 / 16.0) as f32)).collect::<Vec<_>>());
+    let c = g.centroid()?;
+    Some((on_grid(c.x() as f64)?, on_grid(c.y() as f64)?))
+}
 /// the reference point the plugin uses: geo's centroid of the f32 linestring (must be on the grid)
 fn centroid16(ls: &[P]) -> P {
-    let g: LineString<f32> = LineString::from(ls.iter().map(|p| ((p.0 as f64 / 16.0) as f32, (p.1 as f64 / 16.0) as f32)).collect::<Vec<_>>());
-    let c = g.centroid().expect("empty linestring");
-    let x = on_grid(c.x() as f64).unwrap_or_else(|| panic!("centroid off grid: {:?}", ls));
-    let y = on_grid(c.y() as f64).unwrap_or_else(|| panic!("centroid off grid: {:?}", ls));
-    (x, y)
+    try_centroid16(ls).unwrap_or_else(|| panic!("centroid off grid or empty: {:?}", ls))
+}
+/// rotate / mirror a shape given as offsets from its centroid: 8 orientations
+fn orient(offs: &[P], o: u64) -> Vec<P> {
+    offs.iter()
+        .map(|&(x, y)| {
+            let (x, y) = if o & 1 == 1 { (-x, y) } else { (x, y) };
+            let (x, y) = if o & 2 == 2 { (x, -y) } else { (x, y) };
+            if o & 4 == 4 { (y, x) } else { (x, y) }
+        })
+        .collect()
+}
+/// curved geometries as offsets from the centroid (units of 1/16 degree). Segment lengths are chosen so
+/// that geo's length-weighted f32 centroid is exact (total length a power of two): the centroid of the
+/// hairpins, rings and loops lies OUTSIDE the box of their two end points.
+fn curved_shape(kind: u64, k: i64) -> Vec<P> {
+    match kind {
+        // hairpin: up h = 4k, across w = 8k, down h; centroid 3k above the end points
+        0 => vec![(-4 * k, -3 * k), (-4 * k, k), (4 * k, k), (4 * k, -3 * k)],
+        // closed square ring, side 4k, first = last point
+        1 => vec![(-2 * k, -2 * k), (2 * k, -2 * k), (2 * k, 2 * k), (-2 * k, 2 * k), (-2 * k, -2 * k)],
+        // tall hairpin h = 24, w = 16 (total 64), centroid 15 above the end points
+        2 => vec![(-8, -15), (-8, 9), (8, 9), (8, -15)],
+        // ramp loop: closed ring with a tail-less start in the middle of a side (6 points, first = last)
+        3 => vec![(0, -2 * k), (2 * k, -2 * k), (2 * k, 2 * k), (-2 * k, 2 * k), (-2 * k, -2 * k), (0, -2 * k)],
+        // L-shape, legs 4k: centroid inside the end-point box
+        4 => vec![(-3 * k, -k), (k, -k), (k, 3 * k)],
+        // out-and-back (cul-de-sac): end points coincide, 3 points
+        _ => vec![(-2 * k, 0), (2 * k, 0), (-2 * k, 0)],
+    }
+}
+fn curved_around(r: &mut Rng, c: P) -> Option<Vec<P>> {
+    let kind = r.below(6);
+    let k = *r.pick(&[1i64, 2, 4]);
+    let offs = orient(&curved_shape(kind, k), r.below(8));
+    let ls: Vec<P> = offs.iter().map(|o| (c.0 + o.0, c.1 + o.1)).collect();
+    if ls.iter().all(|p| p.0.abs() < 180 * 16 && p.1.abs() < 90 * 16) && try_centroid16(&ls) == Some(c) {
+        Some(ls)
+    } else {
+        None
+    }
 }
 /// a linestring whose geo centroid is exactly `c` (segment lengths are powers of two)
 fn shape_around(r: &mut Rng, c: P) -> Vec<P> {
+    if r.chance(2, 5) {
+        if let Some(ls) = curved_around(r, c) {
+            return ls;
+        }
+    }
     let h = *r.pick(&[1i64, 2, 4, 8]);
     let ls = match r.below(5) {
         0 => vec![c, c],
@@ -664,7 +711,7 @@ fn shape_around(r: &mut Rng, c: P) -> Vec<P> {
         3 => vec![(c.0 - 2 * h, c.1), (c.0, c.1), (c.0 + 2 * h, c.1)],
         _ => vec![(c.0, c.1 + h), (c.0, c.1 - h)],
     };
-    if centroid16(&ls) == c {
+    if try_centroid16(&ls) == Some(c) {
         ls
     } else {
         vec![c, c]
@@ -762,6 +809,12 @@ fn run_edge_case(st: &mut Stream, dir: &Path, c: &ECase) {
     st.count(&format!("outcome:{}", head.split(':').next().unwrap()));
     st.count(&format!("tolerance:{}", tol_label(&c.tol_bits, &c.unit)));
     st.count(&format!("skipped_inadmissible_nearer:{}", skipped.min(4)));
+    // edges whose reference point lies outside the box of their two end points (hairpins, rings, loops)
+    let outside = c.edges.iter().filter(|l| {
+        let (a, b, m) = (l[0], l[l.len() - 1], centroid16(l));
+        m.0 < a.0.min(b.0) || m.0 > a.0.max(b.0) || m.1 < a.1.min(b.1) || m.1 > a.1.max(b.1)
+    }).count();
+    st.count(&format!("edges_with_centroid_outside_endpoint_box:{}", match outside { 0 => "0", 1 => "1", 2..=5 => "2-5", _ => "6+" }));
     st.count(&format!("filters:{}{}", if c.classes.is_some() && c.query.get("road_classes").is_some() { "class" } else { "" }, if restr.is_some() && vparams.is_some() { "+vehicle" } else { "" }));
     for v in &an.verdicts {
         st.count(&format!("verdict:{}", v));
@@ -935,6 +988,31 @@ fn edge_boundary_cases() -> Vec<ECase> {
         cl.extend(std::iter::repeat(2u8).take(k));
         out.push(ecase("high_latitude_excluded_far", es, Some(cl), None, Some((tol_for((d_a + d_b) / 2.0, "feet", 1.0), Some("feet"))), with(query_of(Some(pq), None, &[]), "road_classes", json!([1]))));
     }
+    // curved edges (hairpin, closed ring, ramp loop, cul-de-sac) whose centroid lies outside the box of their end
+    // points, in a network large enough for the r-tree to have internal nodes; queries on / near the centroid
+    // and near the end points, with and without a tolerance
+    for kind in [0u64, 1, 2, 3, 5] {
+        for o in [0u64, 3, 5] {
+            let k = 4;
+            let c0 = (16, 12);
+            let curved: Vec<P> = orient(&curved_shape(kind, k), o).iter().map(|d| (c0.0 + d.0, c0.1 + d.1)).collect();
+            assert_eq!(centroid16(&curved), c0, "curved shape centroid");
+            let mut es = vec![curved.clone()];
+            for p in [(24, 16), (8, 18), (26, 6), (4, 8), (16, 22), (30, 20), (0, 24), (40, 12), (-8, 12), (16, 30), (28, 28), (6, -2), (27, -3)] {
+                es.push(vec![(p.0 - 1, p.1), (p.0 + 1, p.1)]);
+            }
+            let mut qs = vec![c0, (c0.0 + 1, c0.1 + 1), (c0.0 - 1, c0.1 - 2), (c0.0 + 3, c0.1)];
+            qs.push((curved[0].0 + 1, curved[0].1 + 1));
+            qs.push((curved[curved.len() - 1].0 - 1, curved[curved.len() - 1].1 + 1));
+            for (i, q) in qs.iter().enumerate() {
+                let dest = if i % 2 == 0 { Some((qs[(i + 1) % qs.len()].0, qs[(i + 1) % qs.len()].1)) } else { None };
+                out.push(ecase("curved_edges", es.clone(), None, None, None, query_of(Some(*q), dest, &[])));
+            }
+            let d1 = hav((c0.0 + 1, c0.1 + 1), c0).unwrap();
+            out.push(ecase("curved_edges_tolerance", es.clone(), None, None, Some((tol_for(d1, "meters", 2.0), Some("meters"))), query_of(Some((c0.0 + 1, c0.1 + 1)), None, &[])));
+            out.push(ecase("curved_edges_tolerance", es.clone(), None, None, Some((tol_for(d1, "feet", 0.5), Some("feet"))), query_of(Some((c0.0 + 1, c0.1 + 1)), None, &[])));
+        }
+    }
     // coordinate outside the haversine range
     out.push(ecase("out_of_range", line.clone(), None, None, None, query_of(Some((-1680, 1500)), None, &[])));
     out.push(ecase("out_of_range", line.clone(), None, None, Some((1e12f64.to_bits(), Some("meters"))), query_of(Some((-1680, 1500)), None, &[])));
@@ -942,7 +1020,7 @@ fn edge_boundary_cases() -> Vec<ECase> {
 }
 
 fn random_edge_case(r: &mut Rng) -> ECase {
-    let n = *r.pick(&[1usize, 2, 3, 4, 6, 6, 10, 16, 30, 70]);
+    let n = *r.pick(&[1usize, 2, 3, 4, 6, 8, 10, 12, 16, 24, 30, 45, 70]);
     let polar = r.chance(1, 5);
     let (pts, centre, spread16) = random_points(r, n, polar);
     let edges: Vec<Vec<P>> = pts.iter().map(|p| shape_around(r, *p)).collect();
